@@ -44,6 +44,10 @@ class Case:
         self.load()
         if self.parse_error:
             return "invalid " + self.parse_error
+        if "(wideratio " in self.sexp:
+            # WideRatio is modelled in the whole-program generator only (its arithmetic theorem is C16)
+            out = self.d.ask(f"validateprog p{self.id} t{self.id} {self.version} 0")
+            return out + " fragment=false" if out.startswith("valid") else out
         return self.d.ask(f"validate p{self.id} t{self.id} {self.version}")
 
     def cmp(self, ctx: dict, fuel=4000) -> str:
